@@ -136,11 +136,15 @@ def c19_1(ctx):
     rr_ = resolver(ctx, ri, inline=False)
     hs = [i for i in walk_no_nested(ri.node) if isinstance(i, ast.If) and body_only_aborts(i.body)]
     ok = False
+    seen_ = 'no such check'
     for i in hs:
-        cl = to_cnf(i.test, True, rr_)
+        # everything the exit depends on: the test itself and whatever encloses it - only "both bounds are configured" and max < min
+        cl = to_cnf(i.test, True, rr_) + facts_at(ctx, ri, i, rr_)
+        seen_ = describe_facts(cl)
         ok = ok or (frozenset({lit_cmp(ctx, ri, 'self.max_offset < self.min_offset', rr_)}) in cl and all(
-            len(c) == 1 and (next(iter(c))[0] == 'isnone' or c == frozenset({lit_cmp(ctx, ri, 'self.max_offset < self.min_offset', rr_)})) for c in cl))
-    ctx.check(ok, 'wellformed:relative-range-not-inverted', ri.site(hs[0]) if hs else ri.site(), 'a relative-address operand with max < min is rejected', 'no such check')
+            len(c) == 1 and ((next(iter(c))[0] == 'isnone' and next(iter(c))[-1] is False) or c == frozenset({lit_cmp(ctx, ri, 'self.max_offset < self.min_offset', rr_)})) for c in cl))
+    ctx.check(ok, 'wellformed:relative-range-not-inverted', ri.site(hs[0]) if hs else ri.site(),
+              'a relative-address operand with max < min is rejected (whenever both bounds are configured, a bound of 0 included)', seen_)
     for q in ('bespokeasm.assembler.model.instruction.InstructionVariant.__init__', 'bespokeasm.assembler.model.instruction_macro.InstructionMacroVariant.__init__'):
         f = ctx.repo.func(q)
         vcs = [c for c in ast.walk(f.node) if isinstance(c, ast.Call) and unparse(c.func) == 'self._operand_parser.validate']
@@ -155,8 +159,10 @@ def c19_1(ctx):
     h = _exit_guard(ctx, nb, lambda t: 'bytecode_max' in t and 'bytecode_min' in t, 'wellformed:range-not-inverted', 'max < min is rejected')
     for i in h:
         rn = resolver(ctx, nb, inline=False)
-        ctx.check(to_cnf(i.test, True, rn) == [frozenset({lit_cmp(ctx, nb, 'self.bytecode_max < self.bytecode_min', rn)})], 'wellformed:range-not-inverted:exact', nb.site(i),
-                  'rejected exactly when max < min', unparse(i.test))
+        outer = facts_at(ctx, nb, i, rn)
+        ctx.check(to_cnf(i.test, True, rn) == [frozenset({lit_cmp(ctx, nb, 'self.bytecode_max < self.bytecode_min', rn)})] and not outer,
+                  'wellformed:range-not-inverted:exact', nb.site(i),
+                  'rejected exactly when max < min (for every pair of bounds, zero included)', f'{unparse(i.test)} under {describe_facts(outer)}')
     of = ctx.repo.func('bespokeasm.assembler.model.operand.factory.OperandFactory.factory')
     top = next((s for s in of.node.body if isinstance(s, ast.If)), None)
     cur = top
